@@ -1,0 +1,4 @@
+// Package verifhook is the observation and scheduling seam used by the
+// external verification harness. Without the "verif" build tag it is empty and
+// nothing in the library references it.
+package verifhook
